@@ -22,16 +22,34 @@ Inductive produced : position -> Prop :=
     produced q                                                                         (* ptn.ParseTPS, no parsed stack above 64 *)
 | pr_image p s : produced p -> produced (image gen_basis p s)                          (* symmetry.Symmetries' rebuild, any map s *)
 | pr_move p m p' : produced p -> mT m <> 1%N -> mv p m = Ok p' -> heights64 p' ->
-    produced p'.                                                                       (* Position.Move, result within the 64 limit *)
+    produced p'                                                                        (* Position.Move, result within the 64 limit *)
+| pr_pass p m p' : produced p -> mT m = 1%N -> Alloc.amv hsq p m = Ok p' ->
+    produced p'.                                                                       (* Position.Move of a Pass (the search's null move): only the ply counter moves *)
+
+(* what a Pass does: nothing but the ply counter changes (Alloc.amv is the executed model of MovePreallocated including Pass) *)
+Lemma amv_pass p m p' : mT m = 1%N -> Alloc.amv hsq p m = Ok p' ->
+  size p' = size p /\ bview p' = bview p /\ move p' = (move p + 1)%Z /\
+  whiteStones p' = whiteStones p /\ whiteCaps p' = whiteCaps p /\ blackStones p' = blackStones p /\ blackCaps p' = blackCaps p.
+Proof.
+  intros Hm E. unfold Alloc.amv in E. rewrite Hm in E. cbn in E. injection E as <-. cbn. repeat split; reflexivity.
+Qed.
+
+Lemma pass_pos_ok p m p' : pos_ok p -> mT m = 1%N -> Alloc.amv hsq p m = Ok p' -> pos_ok p'.
+Proof.
+  intros [Hs Hb Hr He] Hm E. destruct (amv_pass p m p' Hm E) as (S & B & _ & R1 & R2 & R3 & R4).
+  constructor; rewrite ?S, ?B; try assumption.
+  unfold reserves_ok in *. rewrite R1, R2, R3, R4. exact Hr.
+Qed.
 
 Theorem produced_ok p : produced p -> pos_ok p.
 Proof.
-  induction 1 as [sz bwt stones caps Hs H1 H2|n board mv FB|s q Hq HL|p s _ IH|p m p' _ IH Hm E H64].
+  induction 1 as [sz bwt stones caps Hs H1 H2|n board mv FB|s q Hq HL|p s _ IH|p m p' _ IH Hm E H64|p m p' _ IH Hm E].
   - now destruct (new_ok sz bwt stones caps Hs H1 H2).
   - now apply from_squares_pos_ok.
   - now apply (parse_tps_pos_ok s).
   - now apply image_pos_ok.
   - pose proof (move_exact p m IH Hm) as R. rewrite E in R. destruct R as (a & _ & _ & _ & R). now destruct (R H64).
+  - exact (pass_pos_ok p m p' IH Hm E).
 Qed.
 
 (* replays are produced *)
@@ -148,3 +166,34 @@ Proof.
   destruct (equal_hash_however_produced q p14 Pq P14 (eq_sym Sq) At' (eq_sym Sd)) as (E3 & E4 & _).
   split; [exact E3|]. split; [exact E4|]. vm_compute. reflexivity.
 Qed.
+
+(* ---- Pass (the search's null move): the position after it is the same board with the other side to move ---- *)
+Lemma pass_same_at p m p' : mT m = 1%N -> Alloc.amv hsq p m = Ok p' -> same_at p' p /\ size p' = size p /\ same_side p' p -> False.
+Proof.
+  intros Hm E (_ & _ & T). destruct (amv_pass p m p' Hm E) as (_ & _ & M & _).
+  unfold same_side, to_move_white in T. rewrite M in T. rewrite Z.even_add in T. cbn in T.
+  destruct (Z.even (move p)); discriminate.
+Qed.
+
+Lemma at_sq_bview p q : bview p = bview q -> forall i, at_sq p i = at_sq q i.
+Proof.
+  intros B i. unfold bview in B. injection B as B1 B2 B3 B4 B5 B6 _. unfold at_sq. now rewrite B1, B2, B3, B4, B5, B6.
+Qed.
+
+(* a position reached through a Pass equals, and hashes like, the same board with that side to move produced in any other way;
+   and it is not Equal to the position it was derived from *)
+Theorem pass_equal_hash p m p' q : produced p -> mT m = 1%N -> Alloc.amv hsq p m = Ok p' -> produced q ->
+  size p = size q -> same_at p q -> same_side p' q ->
+  equal p' q = true /\ hash_of p' = hash_of q /\ equal p' p = false.
+Proof.
+  intros Pp Hm E Pq Es Ea Et. pose proof (pr_pass p m p' Pp Hm E) as Pp'.
+  destruct (amv_pass p m p' Hm E) as (S & B & M & _).
+  assert (Ea' : same_at p' q).
+  { intros i Hi. rewrite S in Hi. rewrite (at_sq_bview p' p B i). now apply Ea. }
+  destruct (equal_hash_however_produced p' q Pp' Pq (eq_trans S Es) Ea' Et) as (A1 & A2 & _).
+  refine (conj A1 (conj A2 _)).
+  destruct (equal p' p) eqn:Q; [|reflexivity]. exfalso.
+  destruct (equal_sound_produced p' p Pp' Pp Q) as (Q1 & Q2 & Q3).
+  exact (pass_same_at p m p' Hm E (conj Q2 (conj Q1 Q3))).
+Qed.
+Print Assumptions pass_equal_hash.
